@@ -48,10 +48,13 @@ Qed.
 Lemma split_app a b : split_slash (a ++ SLASH :: b) = split_slash a ++ split_slash b.
 Proof. apply split_aux_app. Qed.
 
+Lemma rev_append_nil (l : bstr) : rev_append l [] = rev l.
+Proof. rewrite rev_append_rev. apply app_nil_r. Qed.
+
 Lemma split_aux_noslash a : forall cur, noslash a -> split_slash_aux a cur = [rev cur ++ a].
 Proof.
   induction a as [|c a IH]; intros cur Hn; simpl.
-  - rewrite app_nil_r. reflexivity.
+  - rewrite ?rev_append_nil, app_nil_r. reflexivity.
   - destruct (N.eqb_spec c SLASH) as [->|Hc].
     + exfalso. apply Hn. left; reflexivity.
     + rewrite IH.
@@ -74,7 +77,7 @@ Qed.
 
 Lemma split_aux_noslash_all s : forall cur, noslash cur -> Forall noslash (split_slash_aux s cur).
 Proof.
-  induction s as [|c s IH]; intros cur Hn; simpl.
+  induction s as [|c s IH]; intros cur Hn; simpl; rewrite ?rev_append_nil.
   - constructor; [|constructor]. intros Hin. apply Hn. apply in_rev. exact Hin.
   - destruct (N.eqb_spec c SLASH) as [->|Hc].
     + constructor.
@@ -88,7 +91,7 @@ Proof. apply split_aux_noslash_all. intros []. Qed.
 
 Lemma split_aux_chars s : forall cur c x, In c (split_slash_aux s cur) -> In x c -> In x s \/ In x cur.
 Proof.
-  induction s as [|c0 s IH]; intros cur c x Hc Hx; simpl in Hc.
+  induction s as [|c0 s IH]; intros cur c x Hc Hx; simpl in Hc; rewrite ?rev_append_nil in Hc.
   - destruct Hc as [<-|[]]. right. apply in_rev. exact Hx.
   - destruct (c0 =? SLASH).
     + destruct Hc as [<-|Hc].
